@@ -301,11 +301,12 @@ def main(argv=None):
                 if not used:
                     cc["no_size_drawn"] += 1
                     continue
-                res = run_one(prop, case, CTX)
-                res["tags"] = list(res["tags"]) + ["codeconst", "codeconst:" + form_] + (["codeconst:novel"] if novel_ else [])
-                emit("codeconst", ci, case, res)
-                cc["run"] += 1
-                n += 1
+                for case_ in (case if isinstance(case, list) else [case]):
+                    res = run_one(prop, case_, CTX)
+                    res["tags"] = list(res["tags"]) + ["codeconst", "codeconst:" + form_] + (["codeconst:novel"] if novel_ else [])
+                    emit("codeconst", ci, case_, res)
+                    cc["run"] += 1
+                    n += 1
         rng = random.Random(a.seed * 1000003 + a.shard)
         total = prop.N_RANDOM.get(a.tier, 0)
         mine = total // a.nshards + (1 if a.shard < total % a.nshards else 0)
